@@ -649,7 +649,12 @@ func (dsc *dataStoreCommand) bitfieldWrite(keyName string, ops []*bitfieldOp) (o
 			// detect underflow and overflow
 			var outOfBounds bool
 			if op.signed {
-				outOfBounds = isSignedSumOverflow(n, op.value, bits)
+				if op.op == BF_SET {
+					// the stored value plays no part: does the new one fit?
+					outOfBounds = isSignedSumOverflow(0, op.value, bits)
+				} else {
+					outOfBounds = isSignedSumOverflow(n, op.value, bits)
+				}
 			} else {
 				// unsigned underflows when it goes negative
 				outOfBounds = newValue < 0 || isUnsignedOverflow(newValue, bits)
